@@ -81,6 +81,9 @@ class Sim:
     chunk = 50
     expected_probes: list[str] = []
 
+    def prepare(self) -> None:
+        """Called once in the pristine parent before any chunk is forked (e.g. load workload data)."""
+
     def cases(self, rng, run: int, tier: str) -> Iterator[dict]:
         """Yield the trace(s) of run index `run` (one base trace, optionally enumerated variants)."""
         raise NotImplementedError
